@@ -495,6 +495,39 @@ def path_conditions(fi: FuncInfo, node: ast.AST) -> list[tuple[ast.AST, bool]]:
                     prior.append((st.test, False))
         return False
     rec(fi.node.body)
+    # conditions inside the statement itself: the arms of a conditional expression, the later operands of and / or,
+    # the element and later filters of a comprehension
+    def expr_conditions(root: ast.AST) -> None:
+        for sub in ast.walk(root):
+            if isinstance(sub, ast.IfExp):
+                if any(x is node for x in ast.walk(sub.body)):
+                    out.append((sub.test, True))
+                elif any(x is node for x in ast.walk(sub.orelse)):
+                    out.append((sub.test, False))
+            elif isinstance(sub, ast.BoolOp):
+                for i, v in enumerate(sub.values[1:], 1):
+                    if any(x is node for x in ast.walk(v)):
+                        for earlier in sub.values[:i]:
+                            out.append((earlier, isinstance(sub.op, ast.And)))
+            elif isinstance(sub, (ast.ListComp, ast.SetComp, ast.GeneratorExp, ast.DictComp)):
+                parts = [sub.key, sub.value] if isinstance(sub, ast.DictComp) else [sub.elt]
+                if any(x is node for part in parts for x in ast.walk(part)):
+                    for g in sub.generators:
+                        for t in g.ifs:
+                            out.append((t, True))
+    holder = None
+    for st in walk_no_nested(fi.node):
+        if isinstance(st, ast.stmt) and not isinstance(st, (ast.If, ast.For, ast.While, ast.With, ast.Try, ast.FunctionDef, ast.ClassDef)) \
+                and any(x is node for x in ast.walk(st)):
+            holder = st
+    if holder is not None:
+        expr_conditions(holder)
+    else:
+        for st in walk_no_nested(fi.node):
+            if isinstance(st, (ast.If, ast.While)) and any(x is node for x in ast.walk(st.test)):
+                expr_conditions(st.test)
+            elif isinstance(st, ast.For) and any(x is node for x in ast.walk(st.iter)):
+                expr_conditions(st.iter)
     norm: list[tuple[ast.AST, bool]] = []
     for test, pol in out:
         while isinstance(test, ast.UnaryOp) and isinstance(test.op, ast.Not):
